@@ -413,6 +413,7 @@ def oracle(run, deep):
                               "theorem": "C01_schedule_independent (premise lexer_private)"})
                     return
     option_engines(run, fresh)
+    process_wide_state(run)
     if not run.quick or deep:
         free_running(run, eng, fresh)
 
@@ -440,6 +441,73 @@ class KeepParserOut:
                     f.write(self.data)
 
 
+def other_alias_dialect():
+    """A factory whose operator records give existing symbols OTHER aliases / no alias (the third element of an operator
+    record is a documented customisation) and that aliases symbols the standard table does not alias."""
+    import yaql
+    f = yaql.YaqlFactory()
+    ops = []
+    for rec in f.operators:
+        if isinstance(rec, tuple) and len(rec) == 3:
+            ops.append((rec[0], rec[1], "alt_" + rec[2]))
+        elif isinstance(rec, tuple) and len(rec) == 2 and rec[0] in ("+", "<", "and"):
+            ops.append((rec[0], rec[1], "alt_op_%d" % len(ops)))
+        else:
+            ops.append(rec)
+    f.operators = ops
+    return f
+
+
+def fresh_process_outcomes(texts):
+    """Reference outcomes immune to ANY state of this process: each text parsed by a fresh engine in a brand-new
+    interpreter (8 at a time)."""
+    import concurrent.futures
+    import json
+    import os
+    import subprocess
+    helper = ("import sys, json; sys.path.insert(0, %r); from props import c01; "
+              "print(json.dumps(repr(c01.outcome(lambda: c01.engine()(json.loads(sys.argv[1]))))))"
+              % os.path.dirname(os.path.dirname(os.path.abspath(__file__))))
+
+    def one(t):
+        import json as j
+        p = subprocess.run([sys.executable, "-W", "ignore", "-c", helper, j.dumps(t)], capture_output=True, text=True,
+                           timeout=120, env=dict(os.environ))
+        try:
+            return t, j.loads(p.stdout.strip().split("\n")[-1])
+        except Exception:
+            return t, None
+    with concurrent.futures.ThreadPoolExecutor(max_workers=8) as ex:
+        return dict(ex.map(one, texts))
+
+
+def process_wide_state(run):
+    """Texts that share an ill-formed or unusual literal at DIFFERENT offsets, parsed in one process after one another
+    and after other dialects were built: tree / error class / position / offending value must be those of a brand-new
+    interpreter (a process-wide memo or a class-level table shared by all engines would show here)."""
+    import yaql
+    lits = ["'\\xzz'", '"\\N{NO SUCH NAME}"', "'\\U00110000'", "'ok'", "12345678901234567890", "'a\\tb'"]
+    texts = []
+    for lit in lits:
+        texts += [lit, "1 + " + lit, "f(1, 2, %s)" % lit, "[%s, %s]" % (lit, lit), "    %s" % lit, "$.a.b.c(%s)" % lit]
+    texts += ["1 = 2", "$.a != 3 and not $.b = 4", "f($x = 1, 2 != $y)", "1 + 2 < 3", "a and b", "1 = "]
+    ref = fresh_process_outcomes(texts)
+    eng = engine()
+    for rnd in range(2):
+        for t in (texts if rnd == 0 else list(reversed(texts))):
+            got = repr(outcome(lambda: eng(t)))
+            run.case(("process-wide", t, rnd), nontrivial=True)
+            run.count("process_wide_state_parse")
+            if ref.get(t) is not None and got != ref[t]:
+                run.fail("violation", "a parse differs from the parse of the same text by a fresh engine in a brand-new interpreter "
+                                      "(state shared by all engines / all parses of the process)",
+                         {"text": t, "round": rnd, "observed": got, "required": ref[t],
+                          "history": "the texts of process_wide_state() in %s order, other dialects created in between" % ("given" if rnd == 0 else "reversed")})
+                return
+        other_alias_dialect().create()
+        yaql.YaqlFactory(keyword_operator=None).create()
+
+
 def option_engines(run, fresh):
     """Engines created with every documented option (yaql.debug included), used after engines of OTHER dialects were
     created in the same process, sequentially and under a strict two-call alternation: same results as a fresh default engine."""
@@ -459,6 +527,7 @@ def option_engines(run, fresh):
             f2 = yaql.YaqlFactory()
             f2.insert_operator("and", True, "&&&", yaql.language.factory.OperatorType.BINARY_LEFT_ASSOCIATIVE, False)
             f2.create()
+            other_alias_dialect().create()
             for t in texts:
                 got = outcome(lambda: eng(t))
                 want = fresh.get(t) or outcome(lambda: engine()(t))
